@@ -50,14 +50,15 @@ def nearest_neighbour(P: Program, R: Report, rule: str) -> None:
         for s in ast.walk(fn):
             if isinstance(s, ast.Assign) and len(s.targets) == 1 and isinstance(s.targets[0], ast.Name) and s.targets[0].id not in cands:
                 src = norm(s.value)
-                if "_to_nodes[" in src or "_to_nodes.get(" in src or any(isinstance(x, ast.Name) and x.id in cands for x in ast.walk(s.value)):
+                if "_to_nodes[" in src or "_to_nodes.get(" in src or "_to_node[" in src or "_to_node." in src or any(isinstance(x, ast.Name) and x.id in cands for x in ast.walk(s.value)):
                     cands.add(s.targets[0].id)
                     changed = True
     if not cands:
-        raise AnalysisError("get_track_neighbors: the list of the track's members was not found")
+        R.undecided(rule, gtn, fn, "get_track_neighbors picks the time-nearest members of the track", "the list of the track's members was not recognised")
+        return
 
     def about_cands(e: ast.AST) -> bool:
-        return any(isinstance(x, ast.Name) and x.id in cands for x in ast.walk(e)) or "_to_nodes[" in norm(e)
+        return any(isinstance(x, ast.Name) and x.id in cands for x in ast.walk(e)) or "_to_nodes[" in norm(e) or "_to_node[" in norm(e)
 
     orderings: list[tuple[ast.AST, bool]] = []  # (site, key is time)
     choices_keyed: list[tuple[ast.AST, bool]] = []
